@@ -1200,6 +1200,19 @@ Proof.
   replace k with (snd (cleanup (s_roster s))) by (rewrite Ec; reflexivity). apply cleanup_complete; auto.
 Qed.
 
+(* a kill request (or a cleanup) leaves every locked task in the roster, verbatim - in the model a request is
+   one step; in the source the step is spread over the KILL calls, and what keeps it equivalent is read off
+   the source (gen/Gen_DoKill.v, dokill_writes_fresh): from its first KILL call on, the kill routine never
+   stores a whole roster it read earlier, so what other requests write meanwhile is not erased *)
+Lemma kill_keeps_the_roster_of_others :
+  dokill_writes_fresh = true /\
+  (forall ids r t, In t r -> is_locked t = true -> In t (fst (kill_tasks ids r))) /\
+  (forall r t, In t r -> is_locked t = true -> In t (fst (cleanup r))).
+Proof.
+  split; [vm_compute; reflexivity|].
+  split; [intros; apply kill_keeps_locked; assumption | intros; apply cleanup_keeps_locked; assumption].
+Qed.
+
 (* a KILL call that fails for one task: what the source does (gen/Gen_DoKill.v) and what the model of
    doKillTasks / KillTasks / Cleanup therefore guarantees: the task that was not killed stays in the roster
    with its owner, and every other selected task still gets its KILL *)
